@@ -225,3 +225,15 @@ func perms(n int, f func(p []int)) {
 	}
 	rec(0)
 }
+
+func (r rows) equal(o rows) bool {
+	if len(r) != len(o) {
+		return false
+	}
+	for i := range r {
+		if r[i] != o[i] {
+			return false
+		}
+	}
+	return true
+}
